@@ -1572,7 +1572,20 @@ class FileHashStore(HashStore):
                 err_msg = f"Unexpected exception: {ue}, reverting tagging process (untag obj)."
                 self.fhs_logger.error(err_msg)
                 if pid_refs_created:
-                    self._untag_object(pid, cid)
+                    try:
+                        self._untag_object(pid, cid)
+                    # pylint: disable=W0718
+                    except Exception as untag_err:
+                        # `_untag_object` re-reads the reference files to decide what to do; if
+                        # that is what fails, remove directly what this call has created
+                        self.fhs_logger.error("Untag failed (%s), reverting directly.", untag_err)
+                        revert_list = []
+                        self._mark_pid_refs_file_for_deletion(pid, revert_list, pid_refs_path)
+                        if os.path.isfile(cid_refs_path):
+                            self._remove_pid_and_handle_cid_refs_deletion(
+                                pid, revert_list, cid_refs_path
+                            )
+                        self._delete_marked_files(revert_list)
                 raise ue
 
         finally:
